@@ -918,7 +918,7 @@ def run_dtensor(case, rng, obs, fail):
     if not np.all(np.abs(rt - delta) <= 1e-9):
         fail(f"demag tensor n={n} cell={cell}: real-space trace differs from -delta at the origin cell by {np.abs(rt - delta).max():.3g}")
     if case["field_based"]:
-        T2 = dftt._demag_tensor_field_based(mesh)
+        T2 = core.private(dftt, "_demag_tensor_field_based")(mesh)
         obs["real_fb"] = real_space(T2)
         if not (T2.mesh == T.mesh and arr_close(T2.array, T.array, 1.0, 1e-10)):
             fail(f"the two demag tensor implementations disagree (max diff {np.abs(T2.array - T.array).max():.3g})")
